@@ -54,6 +54,14 @@ def run(prop, mod, make_ctx, seed=0, log=None):
             seeds.append((meta["seed_id"], os.path.join(os.path.dirname(m), "patch.diff")))
     items = [("mutant", os.path.basename(p)[:-6], p, os.path.basename(p).split("-")[0]) for p in patches] + \
             [("seeded", sid, p, None) for sid, p in seeds]
+    # behaviour-preserving edits: the check must stay silent
+    try:
+        eq_index = json.load(open(os.path.join(VERIF, "selftest", "equivalent", "index.json")))
+    except (OSError, ValueError):
+        eq_index = {}
+    for fn, props in sorted(eq_index.items()):
+        if prop in props:
+            items.append(("equivalent", fn[:-6], os.path.join(VERIF, "selftest", "equivalent", fn), None))
     if seed:
         import random
         random.Random(seed).shuffle(items)
@@ -75,6 +83,12 @@ def run(prop, mod, make_ctx, seed=0, log=None):
                 results.append({"kind": kind, "name": name, "status": "error", "detail": fatal[:300]})
                 continue
             rules = sorted({v["rule"] for v in viol})
+            if kind == "equivalent":
+                results.append({"kind": kind, "name": name, "status": "silent" if not viol else "FALSE-ALARM", "fired": rules,
+                                "keys": [v.get("key") for v in viol][:6], "wall_s": round(time.time() - t0, 1)})
+                if log:
+                    print("[selftest %s] %s %s -> %s" % (prop, kind, name, results[-1]["status"]), file=log)
+                continue
             hit = bool(viol) and (expect is None or expect in rules or "anchor" in rules)
             results.append({"kind": kind, "name": name, "status": "detected" if hit else "MISSED",
                             "expected_rule": expect, "fired": rules,
@@ -88,5 +102,7 @@ def run(prop, mod, make_ctx, seed=0, log=None):
         "mutants_detected": len([r for r in results if r["kind"] == "mutant" and r["status"] == "detected"]),
         "seeded_total": len([r for r in results if r["kind"] == "seeded"]),
         "seeded_detected": len([r for r in results if r["kind"] == "seeded" and r["status"] == "detected"]),
+        "equivalent_total": len([r for r in results if r["kind"] == "equivalent"]),
+        "equivalent_silent": len([r for r in results if r["kind"] == "equivalent" and r["status"] == "silent"]),
         "results": results,
     }
